@@ -84,6 +84,8 @@ def run_copies(ctx, out):
             directed.append(dict(driver=drv, workers=1, bs=65536, upd="chan", size=5 * 65536 + 1000, fault="cfr-zero@%d/6" % nth,
                                  rule=("ret", 0, 0, "copy_file_range", nth)))
         directed.append(dict(driver=drv, workers=1, bs=65536, upd="rec", size=5 * 65536 + 1000, fault="cfr-EIO@6/6", rule=("fail", 5, 0, "copy_file_range", 6)))
+        # a sparse file on a file system without an extent map (FIEMAP: EOPNOTSUPP, as on tmpfs): it is announced, so it is copied
+        directed.append(dict(driver=drv, workers=2, bs=65536, upd="chan", size=0, sparse=True, fault="fiemap-unsupported", rule=("fail", 95, 0, "ioctl", 0)))
         for i in range(3 if quick else 10):
             directed.append(dict(driver=drv, workers=2, bs=4096, upd=("recslow" if i % 2 == 0 else "rec"), size=3 * 65536 + i, fault=None, rule=None, hold=500))
     for k in range(ncase + len(directed)):
@@ -97,6 +99,9 @@ def run_copies(ctx, out):
                              link_targets=[b"a", b"../a", b"nowhere", b"b/c", b"./x"])
         if spec:
             tree = ("dir", {b"only.bin": ("file", spec["size"], {}), b"tiny": ("file", 7, {})}, {})
+            if spec.get("sparse"):
+                tree = ("dir", {b"only.bin": ("file", 3 * (1 << 20), dict(data=[(0, 8192), (1 << 20, (1 << 20) + 70000), (3 * (1 << 20) - 4096, 3 * (1 << 20))])),
+                                b"tiny": ("file", 7, {})}, {})
         trees.materialise(tree, os.fsencode(os.path.join(d, "src")))
         os.mkdir(os.path.join(d, "dst"))
         driver = rng.choice(["parfile", "parblock"])
@@ -168,7 +173,7 @@ def run_copies(ctx, out):
                 rules = [("fail", 13, 0, "openat", 1, victim)]
         if spec:
             upd, fault = spec["upd"], spec["fault"]
-            rules = [spec["rule"] + (os.path.join(d, "dst", "src", "only.bin"),)] if spec["rule"] else []
+            rules = [spec["rule"] + (os.path.join(d, "src", "only.bin") if spec.get("sparse") else os.path.join(d, "dst", "src", "only.bin"),)] if spec["rule"] else []
             out.count("directed_cases")
         upath = os.path.join(d, "updates.log")
         argv = [ctx.bins["probe"], "copy", driver, str(workers), str(bs), upd, "--reflink=never", "--",
